@@ -1,5 +1,5 @@
 SPECIFICATION Spec
 CONSTANTS
-  MaxLen = 3
+  MaxLen = 4
   ShellLen = 3
 INVARIANT Emit
